@@ -653,12 +653,14 @@ theorem drain_Ext (fuel : Nat) (s : S) (buf : Bytes) : Ext s (drain fuel s buf).
   | zero => exact Ext.refl s
   | succ n ih =>
     unfold drain
-    have h := processData_Ext s buf
-    generalize processData s buf = r at h
-    dsimp only
     split
-    · exact h.trans (ih _ _)
-    · exact h
+    · exact Ext.refl s
+    · have h := processData_Ext s buf
+      generalize processData s buf = r at h
+      dsimp only
+      split
+      · exact h.trans (ih _ _)
+      · exact h
 
 theorem dataReceived_Ext (s : S) (d : Bytes) : Ext s (dataReceived s d) := by
   unfold dataReceived
